@@ -476,10 +476,14 @@ def check(prop, tier, seed):
     fl_all = failures(gi, run0['diags'])
     retry = res.get('retry')
     retried_fns = set()
+    main_sigs = {}   # function -> failed obligations of the whole-crate run (for functions that were run again alone)
     if retry and not retry.get('timeout') and retry.get('json'):
         rl0 = set(f['fn'] for f in fl_all if f['kind'] == 'rlimit' and f['fn'] != 'vp_must_fail')
         fl_retry = failures(gi, retry['diags'])
         if not [f for f in fl_retry if f['kind'] == 'tool']:
+            for f in fl_all:
+                if f['fn'] in rl0 and f['kind'] == 'semantic':
+                    main_sigs.setdefault(f['fn'], set()).add(fsig(f))
             fl_all = [f for f in fl_all if f['fn'] not in rl0] + [f for f in fl_retry if f['fn'] in rl0]
             retried_fns = rl0
     # ---- second unit (all-features configuration)
@@ -693,9 +697,12 @@ def check(prop, tier, seed):
     # conservative: when the solver ran out of resources inside a function, its other verdicts for that function are not
     # trusted either (an unstable proof must never become an alarm)
     rl_fns = set(f['fn'] for f in fl if f['kind'] == 'rlimit')
-    moved = [v for v in violations if v['fn'] in rl_fns and not v.get('kani')]
+    # ... except an obligation that failed in BOTH runs (the whole crate with the normal budget, the function alone with six
+    # times the budget): two independent queries agree, which a spurious failure near the limit does not do
+    stable = lambda v: v['fn'] in retried_fns and fsig(v) in main_sigs.get(v['fn'], ())
+    moved = [v for v in violations if v['fn'] in rl_fns and not v.get('kani') and not stable(v)]
     if moved:
-        violations = [v for v in violations if not (v['fn'] in rl_fns and not v.get('kani'))]
+        violations = [v for v in violations if not (v['fn'] in rl_fns and not v.get('kani') and not stable(v))]
         undecided_fns += moved
     # string slicing whose char-boundary precondition cannot be decided: what the function does afterwards rests on an
     # incomplete contract, so its other verdicts are not trusted either
